@@ -504,6 +504,9 @@ def final_render_unit(ctx):
     loop = UpdateLoop(u)
     vc.resolve_loop = lambda key, it: loop
     env = {"__vc": vc, "time": _time, "len": len}
+    from ujvc.units import real_method_fallback
+
+    SelfT.__getattr__ = real_method_fallback(SP, "SimpleProgressObserver", env)   # helper methods a refactoring may introduce
     dr = get(SP, "SimpleProgressObserver._do_render").compile_into(env)
     SelfT._do_render = dr
     rt = get(SP, "SimpleProgressObserver._run_update_thread", cut_loops="auto").compile_into(env)
